@@ -350,7 +350,10 @@ class Gen:
         elif x < 0.45 and cs:
             cs.append(cs[0])
         self.r.shuffle(cs)
-        return ['removefrom', rel, str(p), str(len(cs))] + [str(c) for c in cs]
+        op = ['removefrom', rel, str(p), str(len(cs))] + [str(c) for c in cs]
+        if self.r.random() < 0.25:
+            op.append('set')   # the caller's argument is a set (ir_world: handed over as it is)
+        return op
 
     def g_reorder(self):
         rel = self.r.choice(RELS)
@@ -444,7 +447,7 @@ class Gen:
         inst = self.w.objs[x]
         r = self.r.random()
         if r < 0.2:
-            return ['setref', str(x), '~']
+            return ['setref', str(x), '~'] + (['del'] if self.r.random() < 0.3 else [])
         if inst.reference is not None and r < 0.35:
             # same number of ports, same first port, a later port of another width: refused half-way?
             cur = inst.reference
@@ -534,13 +537,16 @@ class Gen:
         if x < 0.25:
             return ['downto', str(b), self.r.choice('01')]
         if x < 0.6:
-            return ['scalar', str(b), self.r.choice('01')]
+            return ['scalar', str(b), self.r.choice('01')] + (['array'] if self.r.random() < 0.3 else [])
         if x < 0.8:
             return ['lower', str(b), str(self.r.randint(-2, 9))]
         p = self.pick('port')
         if p is None:
             return None
-        return ['direction', str(p), str(self.r.randint(0, 3))]
+        op = ['direction', str(p), str(self.r.randint(0, 3))]
+        if self.r.random() < 0.5:
+            op.append(self.r.choice(['int', 'strl', 'stru', 'strc']))   # the documented int / string spellings of the value
+        return op
 
     def g_policy(self):
         return ['policy', self.r.choice('01')]
